@@ -79,7 +79,7 @@ func ruleCommitBeforeSync(c *Ctx) {
 		}
 		// the object must be defined from serializeTG's result
 		def := false
-		walkAll(s.Body, func(n ast.Node) bool {
+		s.walk(func(n ast.Node) bool {
 			if as, ok := n.(*ast.AssignStmt); ok && len(as.Rhs) == 1 {
 				if cx, ok := unparen(as.Rhs[0]).(*ast.CallExpr); ok && CalleeName(s.Info, cx) == fnSerializeTG {
 					if len(as.Lhs) > 0 && identObj(s.Info, as.Lhs[0]) == o {
@@ -89,6 +89,7 @@ func ruleCommitBeforeSync(c *Ctx) {
 			}
 			return true
 		})
+
 		if def {
 			tgObjs = append(tgObjs, o.Name())
 		}
@@ -221,6 +222,8 @@ func ruleNoForeignWriter(rule string) RuleFn {
 		c.checkDominated(rule, fnQueueWriteCommand, map[string]string{fnWriteRecords: "the writer"}, "write-command queue")
 		// the WAL file handle is written only by the WAL owner functions
 		walOwners := map[string]bool{fnFlushCommandsToWAL: true, fnWTI: true, fnWriteStatus: true, fnSyncWAL: true}
+		// a helper extracted from an owner (reachable only through owners) belongs to the owner
+		walOwned := c.P.GateDominated(walOwners)
 		n := 0
 		for _, fn := range c.P.NonTestFuncs() {
 			if fn.Decl.Body == nil {
@@ -230,11 +233,12 @@ func ruleNoForeignWriter(rule string) RuleFn {
 			walkAll(fn.Decl.Body, func(nd ast.Node) bool {
 				if isFileMethodOn(info, nd, fldFilePtr, "Write", "WriteAt", "WriteString", "Truncate") {
 					n++
-					c.Check(walOwners[fn.Key], rule, fn.Key, "wal-handle-write", c.P.Pos(nd.Pos()),
+					c.Check(walOwned[fn.Key], rule, fn.Key, "wal-handle-write", c.P.Pos(nd.Pos()),
 						"write/truncate on WALFileType.FilePtr must be in "+fmt.Sprint(sortedKeys(walOwners)))
 				}
 				return true
 			})
+
 		}
 		c.Floor(rule, "module", "writes through WALFileType.FilePtr", n, 7)
 	}
